@@ -412,6 +412,8 @@ structure CommitHyps (H : Bytes → Str) (kv : KVSpec) (st : DState) (info : Opt
     (objOrder : List (Str × JObj)) (chgOrder : List Change) (out : DState.CommitOut) : Prop where
   hout : out = DState.commitWrites H st info objOrder chgOrder
   synced : Synced (viewOf H kv) st.p
+  /-- the commit's own guard let the information through (`is_too_deep`) -/
+  guard : DState.commitRefusesInfo info = false
   info : ∀ i, info = some i → Canon i ∧ ∃ o, i = .obj o
   chgOK : ∀ c ∈ chgOrder, ChangeOK H c
   idCanon : C10.Canonical out.block.id
@@ -484,7 +486,7 @@ theorem CommitHyps.complete (hc : CommitHyps H kv st info objOrder chgOrder out)
       (st.p.objects ++ newObjectsOf H (applyWrites kv out.writes) out) out.block.id := by
   have hfresh : ∀ d, kv.read out.block.id.key = some d → d = blockBytes out := by
     intro d hd; rw [hc.blockFresh] at hd; cases hd
-  have hcc := C09.commit_complete hc.hout hc.info hc.anchorsCanon hc.chgOK hc.idCanon hfresh hc.packFresh
+  have hcc := C09.commit_complete hc.hout hc.info hc.guard hc.anchorsCanon hc.chgOK hc.idCanon hfresh hc.packFresh
     (objs := st.p.objects ++ newObjectsOf H (applyWrites kv out.writes) out)
     (fun p hp => (hc.anchorsComplete p hp).mono (View.le_refl _) (fun d hd => List.mem_append_left _ hd))
     hc.readable
@@ -857,6 +859,7 @@ variable {H : Bytes → Str} {st : DState} {info : Option JVal} {objOrder : List
 theorem commitHyps_first (hout : out = DState.commitWrites H st info objOrder chgOrder)
     (hd : st.p.deltas = []) (hob : st.p.objects = []) (hap : st.p.appliedPacks = [])
     (hinfo : ∀ i, info = some i → Canon i ∧ ∃ o, i = .obj o)
+    (hguard : DState.commitRefusesInfo info = false)
     (hchg : ∀ c ∈ chgOrder, ChangeOK H c)
     (hcan : C10.Canonical out.block.id)
     (hread : changesReadable (newObjectsOf H (applyWrites KVSpec.empty out.writes) out) chgOrder = true) :
@@ -864,6 +867,7 @@ theorem commitHyps_first (hout : out = DState.commitWrites H st info objOrder ch
   hout := hout
   synced := synced_empty H hd hob hap
   info := hinfo
+  guard := hguard
   chgOK := hchg
   idCanon := hcan
   blockFresh := C10.empty_read _
@@ -897,6 +901,7 @@ theorem first_commit_reopen {P : Rev → Prop} (ho : CmpOrder P)
     (hout : out = DState.commitWrites H st info objOrder chgOrder)
     (hd : st.p.deltas = []) (hob : st.p.objects = []) (hap : st.p.appliedPacks = [])
     (hinfo : ∀ i, info = some i → Canon i ∧ ∃ o, i = .obj o)
+    (hguard : DState.commitRefusesInfo info = false)
     (hchg : ∀ c ∈ chgOrder, ChangeOK H c)
     (hcan : C10.Canonical out.block.id)
     (hread : changesReadable (newObjectsOf H (applyWrites KVSpec.empty out.writes) out) chgOrder = true)
@@ -909,7 +914,7 @@ theorem first_commit_reopen {P : Rev → Prop} (ho : CmpOrder P)
     Synced (viewOf H (applyWrites KVSpec.empty out.writes)) r ∧ Agree st' r ∧
     ∀ u, (treeOf st'.docs u).leafs = (treeOf r.docs u).leafs ∧ (treeOf st'.docs u).winner = (treeOf r.docs u).winner := by
   intro st'
-  have hc := commitHyps_first hout hd hob hap hinfo hchg hcan hread
+  have hc := commitHyps_first hout hd hob hap hinfo hguard hchg hcan hread
   have hanc : st.p.anchors = [] := by unfold PState.anchors; rw [hd]; rfl
   have hnu : NoneUnblocked H KVSpec.empty st out := by
     intro p hpm; rw [hd] at hpm; cases hpm
@@ -979,7 +984,7 @@ theorem ePre : PreCommit eSt.p :=
     (by decide +kernel) (by decide +kernel)
 
 theorem eHyps : CommitHyps Hlen KVSpec.empty eSt none eStage [eChg1, eChg2] eOut :=
-  commitHyps_first rfl rfl rfl rfl (by intro i hi; cases hi) eChgOK (by decide +kernel)
+  commitHyps_first rfl rfl rfl rfl (by intro i hi; cases hi) rfl eChgOK (by decide +kernel)
     (by rw [show applyWrites KVSpec.empty eOut.writes = eKv from rfl, eNew]; decide +kernel)
 
 theorem eP_all : ∀ u, ∀ e ∈ entriesOf eSt.p.docs u, eP e.rev := by
@@ -997,7 +1002,7 @@ example : ∃ r, reload {} (viewOf Hlen eKv) = .ok r ∧
     (treeOf r.docs "u".toList).winner = some eRev2 ∧ r.objects ≠ [] := by
   obtain ⟨r, hr⟩ := first_commit_reload_ok eHyps rfl
   have hst : ∀ c, c ∈ [eChg1, eChg2] ↔ c ∈ stagedChanges eSt.p.docs := by rw [eStaged]; exact fun _ => Iff.rfl
-  obtain ⟨_, _, _, _, ha, hw⟩ := first_commit_reopen eOrder (out := eOut) rfl rfl rfl rfl (by intro i hi; cases hi)
+  obtain ⟨_, _, _, _, ha, hw⟩ := first_commit_reopen eOrder (out := eOut) rfl rfl rfl rfl (by intro i hi; cases hi) rfl
     eChgOK eHyps.idCanon eHyps.readable ePre hst eP_all hr
   refine ⟨r, hr, ha, ?_, ?_, ?_⟩
   · rw [← ha.status]
@@ -1078,6 +1083,7 @@ theorem hHyps : CommitHyps Hlen hKv hSt none eStage [eChg1, eChg2] hOut where
   hout := rfl
   synced := synced_with_docs (reload_synced (C10.viewOf_ok _ _) hP0_eq) _
   info := by intro i hi; cases hi
+  guard := rfl
   chgOK := eChgOK
   idCanon := by decide +kernel
   blockFresh := by decide +kernel
@@ -1146,6 +1152,7 @@ theorem gHyps : CommitHyps Hlen gKv gSt (some C11.infoA) eStage [eChg1, eChg2] g
   hout := rfl
   synced := synced_with_docs (reload_synced (C10.viewOf_ok _ _) gP0_eq) _
   info := C09.infoA_ok
+  guard := by decide
   chgOK := eChgOK
   idCanon := by decide +kernel
   blockFresh := by decide +kernel
